@@ -399,5 +399,64 @@ func runAreaSign(c *core.Ctx) []core.Obligation {
 	} else {
 		obs = append(obs, core.Ob("R-AREASIGN", "Loop.TurningAngle", "-", "", core.Violated, "unresolved anchor"))
 	}
+	// PolygonFromOrientedLoops decides whether to invert the whole polygon from the PARITY of the loops that contain the
+	// origin: the flag compared with the recorded containment is only ever toggled inside the loop, never set
+	if fn := c.Fn("s2", "", "PolygonFromOrientedLoops"); fn != nil {
+		var acc *ssa.Phi
+		core.AllInstrs(fn, func(in ssa.Instruction) {
+			bo, ok := in.(*ssa.BinOp)
+			if !ok || bo.Op != token.NEQ {
+				return
+			}
+			for _, side := range []ssa.Value{bo.X, bo.Y} {
+				if phi, isPhi := side.(*ssa.Phi); isPhi {
+					if b, isB := phi.Type().Underlying().(*types.Basic); isB && b.Kind() == types.Bool {
+						acc = phi
+					}
+				}
+			}
+		})
+		if acc == nil {
+			obs = append(obs, core.Ob("R-AREASIGN", "PolygonFromOrientedLoops:origin-parity", c.Pos(fn.Pos()), core.FuncName(fn), core.Violated, "unresolved anchor: the comparison of the origin-parity flag with the recorded containment was not found"))
+		} else {
+			toggles, sets := 0, ""
+			seen := map[ssa.Value]bool{}
+			var walk func(v ssa.Value)
+			walk = func(v ssa.Value) {
+				if seen[v] {
+					return
+				}
+				seen[v] = true
+				switch x := v.(type) {
+				case *ssa.Phi:
+					for _, e := range x.Edges {
+						walk(e)
+					}
+				case *ssa.UnOp:
+					if x.Op == token.NOT {
+						toggles++
+					} else {
+						sets = x.String()
+					}
+				case *ssa.Const:
+					// the initial false is fine; a constant assigned inside the loop shows up as a second constant edge
+					if x.Value != nil && x.Value.String() == "true" {
+						sets = "true"
+					}
+				default:
+					sets = v.String()
+				}
+			}
+			walk(acc)
+			if toggles >= 1 && sets == "" {
+				obs = append(obs, core.Ob("R-AREASIGN", "PolygonFromOrientedLoops:origin-parity", c.Pos(fn.Pos()), core.FuncName(fn), core.Discharged, "the flag starts false and is only toggled for each loop that contains the origin"))
+			} else {
+				obs = append(obs, core.Ob("R-AREASIGN", "PolygonFromOrientedLoops:origin-parity", c.Pos(fn.Pos()), core.FuncName(fn), core.Violated,
+					"the flag that says whether the polygon contains the origin is assigned ("+sets+") instead of toggled for each containing loop: when the origin lies inside a hole (an even number of loops) the whole polygon is inverted, so area, centroid and containment are those of the complement"))
+			}
+		}
+	} else {
+		obs = append(obs, core.Ob("R-AREASIGN", "PolygonFromOrientedLoops:origin-parity", "-", "", core.Violated, "unresolved anchor"))
+	}
 	return obs
 }
